@@ -9,7 +9,9 @@ R26.1 panic_sites_reach: the explicit panic constructs (unwrap/expect on Option/
 R26.2 error discipline of the reader: the semantic actions of the grammar reader (parol_grammar.rs) and
       to_grammar_config.rs return Result; `?`/bail! are the reporting idiom - these two modules must stay within their
       frozen site counts *and* every site there is reviewed (no baseline-unreviewed entries allowed).
-Implicit panics (indexing, arithmetic overflow, RefCell borrows, stack overflow) depend on value ranges: NOT decided.
+R26.4 unsigned-subtraction inventory on the same reachable set: each overflow-checked `a - b` is discharged by a dominating
+      guard a >= b (subguard.py) or reviewed in SUB_TABLE.
+Other implicit panics (indexing, additions, RefCell borrows, stack overflow) depend on value ranges: NOT decided.
 """
 import json
 import os
@@ -39,6 +41,20 @@ ENTRY_EXACT = {
 }
 REVIEWED_MODULES = ("parser::to_grammar_config", "parser::parol_grammar", "generators::grammar_trans")
 TABLE = os.path.join(os.path.dirname(os.path.dirname(os.path.dirname(os.path.abspath(__file__)))), "tables", "c26_panics.json")
+
+
+SUB_TABLE = {
+    "parol|analysis::k_tuple|Terminals::k_concat":
+        (1, "k - my_k_len after the early return for is_k_complete(k): a k-incomplete tuple is shorter than k"),
+    "parol|generators::cs_lexer_generator|generate_dfa":
+        (1, "num_classes - 1 inside the loop over the num_classes transition slots (the loop body runs only if there is one)"),
+    "parol|generators::scanner_config|ScannerConfig::generate_build_information":
+        (1, "terminal_names.len() - 1: the table always starts with the five built-in terminals"),
+    "parol|generators::symbol_table|SymbolTable::get_or_create_scoped_user_defined_type":
+        (1, "user_defined_type.len() - 1: a UserDefinedTypeName parsed from a grammar has at least one identifier"),
+    "parol|generators::user_trait_generator|UserTraitGenerator::generate_stack_pops":
+        (1, "member_count - 1 inside the loop over the members"),
+}
 
 
 def entries(facts):
@@ -102,6 +118,9 @@ def check(ctx):
     ctx.counters.update({"sites_" + k.replace("-", "_"): v for k, v in classes.items()})
     ctx.require_floor("R26.1", "reachable_functions", len(seen), 900)
     ctx.require_floor("R26.1", "panic_sites", sum(len(v) for v in found.values()), 100)
+
+    from . import subguard
+    subguard.inventory(ctx, ctx.facts(), cg, seen, "R26.4", SUB_TABLE, 6, what="grammar-processing path")
 
     # R26.3: reviewed-safe entries that rest on another property's rule are re-evaluated here
     # (the unwrap in Cfg::get_terminal_index_function cannot fire only while the lookup key equals the de-duplication key)
